@@ -135,6 +135,27 @@ Theorem C03_component_end_to_end_any_router : forall shortest fit mk_inner bk o 
 Proof. exact Gs2_bands_any. Qed.
 Print Assumptions C03_component_end_to_end_any_router.
 
+(* ---------- with the OTHER ordering option, autog.OrderingNoop (Model/PipelineNoop.v: [layout_n bk] is Layout with the
+   bands kept in the order of the layering, every positioner; Proofs/NoopPipeline*.v) ---------- *)
+From Autog Require Import PipelineNoop NoopPipeline NoopPipeline2.
+Theorem C03_component_end_to_end_noop_ordering : forall bk o g g' x, component_input g -> modelled_p5 (o_p5 o) ->
+  layout_component_n bk o g = Ok (g', x) -> E2_statement (o_layer_spacing o) g g'.
+Proof. exact Gn2_bands_any. Qed.
+Print Assumptions C03_component_end_to_end_noop_ordering.
+
+Theorem C03_band_separation_noop_ordering : forall bk o g g' x, component_input g -> modelled_p5 (o_p5 o) ->
+  layout_component_n bk o g = Ok (g', x) ->
+  forall k n m, In n (l_nodes (glayer g' k)) -> In m (l_nodes (glayer g' (S k))) ->
+    (nY g' n + nH g' n + o_layer_spacing o <= nY g' m)%Q.
+Proof. exact Gn2_band_separation_any. Qed.
+Print Assumptions C03_band_separation_noop_ordering.
+
+Theorem C03_acyclic_input_all_downward_noop_ordering : forall bk o g g' x, component_input g -> modelled_p5 (o_p5 o) ->
+  layout_component_n bk o g = Ok (g', x) -> CBBase.ranked (fst (Populate.ignore_self_loops g)) ->
+  forall e, In e (g_E g) -> self_loop g e = false -> e_ahs (gedge g' e) = false.
+Proof. exact Gn2_acyclic_input_has_no_upward_edge_any. Qed.
+Print Assumptions C03_acyclic_input_all_downward_noop_ordering.
+
 (* ---------- regenerated from the source on every run (translator): cycle breaking and layering does not read node identifiers, as its
    model, which contains none, assumes ---------- *)
 From Coq Require Import String.
